@@ -449,6 +449,121 @@ pub fn sweep_items() -> Vec<SweepItem> {
     v
 }
 
+/// Deep / long repetitive shapes: (label, opener repeated n times, body, closer repeated n times, newline between repeats)
+pub const DEEP_SHAPES: &[(&str, &str, &str, &str, bool)] = &[
+    ("parens", "(", "x", ")", false),
+    ("brackets", "[", "1", "]", false),
+    ("braces", "{", "", "}", false),
+    ("elements", "<div>", "x", "</div>", false),
+    ("quote-prefixes", "> ", "x", "", false),
+    ("block-comment-openers", "/* ", "x", " */", false),
+    ("html-comment-openers", "<!-- ", "x", " -->", false),
+    ("comment-lines", "# c", "", "", true),
+    ("nested-blocks-hash", "# <block>", "", "# </block>", true),
+    ("nested-blocks-slash", "// <block>", "", "// </block>", true),
+    ("member-chain", "a.", "a", "", false),
+    ("binary-chain", "1+", "1", "", false),
+    ("quotes", "\"", "", "", false),
+    ("nested-list", "", "", "", true),
+    ("backticks", "`", "", "", false),
+    ("tag-openers", "<block ", "", "", false),
+];
+
+#[derive(Clone, Debug, Serialize, Deserialize)]
+pub struct DeepItem {
+    pub suffix: usize,
+    pub shape: usize,
+    pub n: usize,
+}
+
+pub fn deep_text(shape: usize, n: usize) -> String {
+    let (label, open, body, close, nl) = DEEP_SHAPES[shape % DEEP_SHAPES.len()];
+    if label == "nested-list" {
+        return (0..n).map(|i| format!("{}- x\n", "  ".repeat(i))).collect();
+    }
+    let sep = if nl { "\n" } else { "" };
+    let mut s = String::with_capacity(n * (open.len() + close.len() + 1) + 8);
+    for _ in 0..n {
+        s.push_str(open);
+        s.push_str(sep);
+    }
+    s.push_str(body);
+    s.push_str(sep);
+    for _ in 0..n {
+        s.push_str(close);
+        s.push_str(sep);
+    }
+    s.push('\n');
+    s
+}
+
+/// K7 signature: a Markdown file on which blockwatch is killed by tree-sitter's `length <= 1024` assertion
+/// (the Markdown scanner's serialised state outgrows tree-sitter's fixed buffer under deep container nesting).
+fn k7_signature(suffix: &str, o: &Out) -> bool {
+    matches!(suffix, "md" | "markdown") && o.stderr.contains("ts_parser__external_scanner_serialize")
+}
+
+pub fn check_deep(it: &DeepItem, probe: &Probe) -> Verdict {
+    let (suffix, _) = SUFFIXES[it.suffix % SUFFIXES.len()];
+    let text = deep_text(it.shape, it.n);
+    let file = langs::file_name("deep", suffix);
+    probe.class(&format!("shape:{}", DEEP_SHAPES[it.shape % DEEP_SHAPES.len()].0));
+    probe.class(&format!("depth:{}", it.n));
+    probe.nontrivial();
+    probe.sample(|| json!({"file": file, "shape": DEEP_SHAPES[it.shape % DEEP_SHAPES.len()].0, "repeats": it.n, "bytes": text.len()}));
+    let sb = Sandbox::with_fake_git();
+    sb.write(&file, text.as_bytes());
+    for args in [vec![file.as_str()], vec!["list", file.as_str()]] {
+        let mut r = BwRun::scan(&args);
+        r.timeout_s = Some(40);
+        probe.child();
+        probe.evals(1);
+        let o = sb.bw(&r);
+        if o.wall_ms > 2000 {
+            probe.class(&format!("slow(>2s):{}:{}", DEEP_SHAPES[it.shape % DEEP_SHAPES.len()].0, langs::lang_of_suffix(suffix).id));
+        }
+        if o.timed_out {
+            return Verdict::Unspecified("a repetitive input of this size takes longer than 40 s (slowness is not judged here)");
+        }
+        if let Some(why) = bad_exit(&o) {
+            if k7_signature(suffix, &o) && crate::known::listed("K7") {
+                probe.class("known:K7");
+                return Verdict::Known("K7");
+            }
+            return Verdict::Fail(format!("C04 [{suffix}]: {why} on {} repeats of {:?} ({} bytes, `{}`)\n--- observed ---\n{}", it.n, DEEP_SHAPES[it.shape % DEEP_SHAPES.len()].1, text.len(), args.join(" "), o.brief()));
+        }
+    }
+    Verdict::Pass
+}
+
+pub fn deep_items(thorough: bool) -> Vec<DeepItem> {
+    let mut v = vec![];
+    // smallest first
+    for n in if thorough { [300usize, 3000] } else { [300usize, 1000] } {
+        for shape in 0..DEEP_SHAPES.len() {
+            for suffix in 0..SUFFIXES.len() {
+                // quick tier: `<!-- ` repeated 1000 times sends the error recovery of several non-markup grammars
+                // into seconds of (terminating) work; keep that shape for markup-capable suffixes only
+                let markup = matches!(SUFFIXES[suffix].0, "html" | "htm" | "xml" | "md" | "markdown" | "php" | "phtml" | "tsx" | "jsx");
+                if !thorough && n > 300 && DEEP_SHAPES[shape].0 == "html-comment-openers" && !markup {
+                    continue;
+                }
+                v.push(DeepItem { suffix, shape, n });
+            }
+        }
+    }
+    // very deep expression nesting (stack depth of anything recursive) on a subset; markup shapes are left out
+    // at this size because tree-sitter-html/xml are quadratic in the nesting depth (slow, not wrong)
+    let deep_sfx = ["js", "py", "c", "rs", "yaml", "go", "java", "ts", "tsx", "rb", "sh", "php", "kt", "swift", "cs", "toml", "sql", "css"];
+    let n = if thorough { 200_000 } else { 40_000 };
+    for shape in [0usize, 1, 2, 10, 11] {
+        for sfx in deep_sfx {
+            v.push(DeepItem { suffix: SUFFIXES.iter().position(|(s, _)| *s == sfx).unwrap(), shape, n });
+        }
+    }
+    v
+}
+
 #[derive(Clone, Debug, Serialize, Deserialize)]
 pub struct RawInput {
     pub suffix: String,
@@ -470,7 +585,7 @@ pub fn check_raw(r: &RawInput, probe: &Probe) -> Verdict {
 pub fn run(run: &mut Run) {
     run.sentinel("K6", "raw", check_raw);
     run.enumerate("raw", Vec::<RawInput>::new(), None, check_raw);
-    run.rule = "one enumerated and three random parts. unicode-sweep: the golden file of every (suffix, comment form) with one unusual character (NBSP, ideographic space, U+2028, NEL, é, emoji, combining mark, BOM, VT, CR, NUL) inserted at every byte position, or substituted for each blank, parsed + validated in-process. soup: 1..40 tokens drawn from 155 fragments (comment delimiters of every language, tag fragments, half-written tags, quotes, brackets, newlines/CR/CRLF, NBSP, zero-width, emoji, combining marks, BOM, here-doc/PHP/Markdown/XML openers, small valid statements), glued or space-separated, run in-process (parse + sync validators) under all 39 suffixes. mutants: delete/duplicate/insert-token/truncate/move-span mutations of valid files (golden file of every suffix x comment form, and the repository's own sources, tests, README, capped at 8 KiB) under their own suffix in-process. cli: a mutant committed and a further mutation in the work tree, real `git diff -U0..3` piped to `blockwatch` and `blockwatch list`, plus scan and list, under the file's suffix and a second random suffix. Every in-process panic is re-run on the CLI before it is reported. Evaluations count (input, suffix, mode) runs. Non-trivial input = unbalanced comment delimiters, a half-written tag, a Markdown definition opener or a degenerate `<!-->`.".into();
+    run.rule = "two enumerated and three random parts. deep: 16 repetitive shapes (nested parentheses / brackets / braces / elements, block-quote prefixes, comment openers, comment lines, nested <block> tags, member and operator chains, quotes, nested lists, backticks, unfinished tags) repeated 300 and 1 000 (thorough 3 000) times under every suffix, and expression nesting 40 000 (thorough 200 000) deep under 18 suffixes, on the CLI in scan and list mode. unicode-sweep: the golden file of every (suffix, comment form) with one unusual character (NBSP, ideographic space, U+2028, NEL, é, emoji, combining mark, BOM, VT, CR, NUL) inserted at every byte position, or substituted for each blank, parsed + validated in-process. soup: 1..40 tokens drawn from 155 fragments (comment delimiters of every language, tag fragments, half-written tags, quotes, brackets, newlines/CR/CRLF, NBSP, zero-width, emoji, combining marks, BOM, here-doc/PHP/Markdown/XML openers, small valid statements), glued or space-separated, run in-process (parse + sync validators) under all 39 suffixes. mutants: delete/duplicate/insert-token/truncate/move-span mutations of valid files (golden file of every suffix x comment form, and the repository's own sources, tests, README, capped at 8 KiB) under their own suffix in-process. cli: a mutant committed and a further mutation in the work tree, real `git diff -U0..3` piped to `blockwatch` and `blockwatch list`, plus scan and list, under the file's suffix and a second random suffix. Every in-process panic is re-run on the CLI before it is reported. Evaluations count (input, suffix, mode) runs. Non-trivial input = unbalanced comment delimiters, a half-written tag, a Markdown definition opener or a degenerate `<!-->`.".into();
     run.assumptions = vec![
         "inputs are at most 16 KiB (edited lines are short: the character diff of one replaced line is quadratic, slowness on very long lines is not flagged)".into(),
         "only git-made diffs are piped in".into(),
@@ -478,6 +593,8 @@ pub fn run(run: &mut Run) {
     let soup = || (proptest::collection::vec(any::<u16>(), 1..40), any::<bool>()).prop_map(|(tokens, spaced)| Soup { tokens, spaced }).boxed();
     let mutant = || (any::<u16>(), ops_strategy(6)).prop_map(|(seed, ops)| Mutant { seed, ops }).boxed();
     let cli = || (any::<u16>(), ops_strategy(4), ops_strategy(4), any::<u16>()).prop_map(|(seed, ops, second, other_suffix)| CliCase { mutant: Mutant { seed, ops }, second, other_suffix }).boxed();
+    run.sentinel("K7", "deep", check_deep);
+    run.enumerate("deep", deep_items(run.tier == crate::engine::Tier::Thorough), Some("16 repetitive shapes x 39 suffixes x {300, 1000} (thorough {300, 3000}) repeats, plus 5 expression-nesting shapes x 18 suffixes at 40 000 (thorough: 200 000) levels"), check_deep);
     run.enumerate("unicode-sweep", sweep_items(), Some("every byte position of the golden file of every (suffix, comment form) x 11 unusual characters x {insert, replace a blank}"), check_sweep);
     run.random("soup", run.tier.pick(2500, 40000), soup, check_soup);
     run.random("mutants", run.tier.pick(20000, 600000), mutant, check_mutant);
